@@ -191,7 +191,24 @@ def long_inputs(ctx, exe):
         e = events[0]
         ctx.sample({"long_input_len": len(e["s"]), "op": e["op"], "delims": txt(e["d"]), "first_60_chars": txt(e["s"][:60]),
                     "tokens": len(e["ret"]), "first_tokens": [txt(t) for t in e["ret"][:3]]})
+        negative_control(ctx, events)
     return events
+
+
+def negative_control(ctx, events):
+    """Vacuity guard for direction (B): one character of one logged token is changed; TLC must reject exactly that event."""
+    import copy
+    small = sorted((e for e in events if e["ret"] and any(e["ret"])), key=lambda e: len(e["s"]))[:3]
+    if len(small) < 3:
+        raise Broken("negative control: not enough recorded events")
+    bad = copy.deepcopy(small)
+    toks = bad[1]["ret"]
+    k = next(i for i, t in enumerate(toks) if t)
+    toks[k][len(toks[k]) // 2] = 122 if toks[k][len(toks[k]) // 2] != 122 else 121      # one character of one token
+    ok, pos, path, res = x_c12.validate_trace(ctx, "QuoteTrace.tla", "QuoteTrace.cfg", bad, tag="negctl")
+    if ok or pos != 1:
+        raise Broken("negative control: a corrupted token list was not rejected at the corrupted event (accepted=%s, position=%s)" % (ok, pos))
+    ctx.cov["long_inputs"]["negative_control"] = "one character of a logged token changed in event 1 of 3: rejected by TLC at event 1"
 
 
 def run(ctx):
